@@ -63,8 +63,9 @@ pub fn mem_report(base: usize) -> (usize, usize) {
 }
 use std::panic::{catch_unwind, AssertUnwindSafe};
 
-static CURRENT: std::sync::Mutex<Option<(std::time::Instant, String)>> = std::sync::Mutex::new(None);
-const CASE_LIMIT_S: u64 = 90;
+static CURRENT: std::sync::Mutex<Option<(std::time::Instant, String, u64)>> = std::sync::Mutex::new(None);
+const CASE_LIMIT_S: u64 = 90; // real-runtime cases (they contain their own waits)
+const CASE_LIMIT_DET_S: u64 = 30; // deterministic, in-memory cases
 
 fn run_case(kind: &str, args: &[&str]) -> String {
     match kind {
@@ -120,7 +121,7 @@ fn main() {
                 }
                 // watchdog: a case that does not come back is an observation (`hang`), and the driver
                 // restarts the harness behind it
-                *CURRENT.lock().unwrap() = Some((std::time::Instant::now(), id.to_string()));
+                *CURRENT.lock().unwrap() = Some((std::time::Instant::now(), id.to_string(), if kind == "rt" || kind == "chain" { CASE_LIMIT_S } else { CASE_LIMIT_DET_S }));
                 let res = catch_unwind(AssertUnwindSafe(|| run_case(kind, &toks[2..])));
                 let mut obs = match res {
                     Ok(s) => s,
@@ -140,8 +141,8 @@ fn main() {
     std::thread::spawn(|| loop {
         std::thread::sleep(std::time::Duration::from_millis(200));
         let cur = CURRENT.lock().unwrap().clone();
-        if let Some((t0, id)) = cur {
-            if t0.elapsed() > std::time::Duration::from_secs(CASE_LIMIT_S) {
+        if let Some((t0, id, limit)) = cur {
+            if t0.elapsed() > std::time::Duration::from_secs(limit) {
                 let so = std::io::stdout();
                 let mut o = so.lock();
                 let _ = writeln!(o, "{} hang", id);
